@@ -139,7 +139,9 @@ def read_siunitx(s, names):
 class Check(Property):
     ID = "C09"
     PROPS_FILE = "PintModel/Props/C09.lean"
-    MODULE = "PintModel.Props.C09"
+    MODULE = "PintModel.Props.C09Denote"
+    EXTRA_PROPS_FILES = ["PintModel/Props/C09Denote.lean"]
+    EXTRA_LEAN_FILES = ["PintModel/Proofs/FormatDenoteLemmas.lean"]
     RULE = ("every canonical unit x spec in {'', D, C, P, H, L} x {'', ~} (exhaustive) and random compound units "
             "(1-5 factors, integer and decimal-fraction exponents) rendered string-exactly by the model; "
             "split_format on generated specs; oracle: parse-back of the plain formats, independent readers for "
